@@ -58,7 +58,8 @@ WritePlan gen_plan(const model::Data& d, bool for_c01, int format) {
     WritePlan p;
     p.format = format;
     p.history = d.history;
-    p.compression = p.format == 3 ? 0 : static_cast<int>(choose(S_WORK, 3));
+    p.compression = static_cast<int>(choose(S_WORK, 3));
+    if (p.format == 3 && choose(S_WORK, 3) != 0) { p.compression = 0; }   // PBF mostly without file compression, but that cell of the matrix exists too
     static const char* base[] = {"osm", "osc", "opl", "pbf"};
     p.suffix = base[p.format];
     if (p.history) {
@@ -332,6 +333,24 @@ void run_c08() {
     } else if (fk == F_ENCODER) {
         bad_utf8_at = d.objs.empty() ? 0 : static_cast<int>(choose(S_FAULT, static_cast<uint32_t>(d.objs.size())));
         fault_desc = "object with invalid UTF-8 near #" + std::to_string(bad_utf8_at);
+        // does encoding this object fail at all? (an encoder that escapes the bytes instead does not fail, and then
+        // there is nothing to report) - decided by a quiet reference write with the same object
+        sim::RunConfig qcfg;
+        qcfg.preemptive = false;
+        sim::begin_run(qcfg);
+        bool encoder_fails = false;
+        {
+            sim::QuietScope quiet;
+            const WriteResult probe = write_all(d, p, 1, bad_utf8_at);
+            encoder_fails = probe.threw;
+        }
+        sim::end_run();
+        if (!encoder_fails) {
+            sim::probe("encoder accepts the invalid UTF-8 object (no encoder fault to inject)");
+            fk = F_NONE;
+            bad_utf8_at = -1;
+            fault_desc = "none";
+        }
     } else if (fk == F_COMPRESSOR) {
         fault_desc = "compress2() fails on call #";
     }
